@@ -33,14 +33,17 @@ def spec(tier, seed):
         inst.append(strip_inst("c19", L, st, ow, "C19/C16 strip + unsafe-name check against a bytewise reference"))
     for nm, text, strip in REFUSED:
         inst.append(Instance("c19_refused_%s" % nm, "parser", "t_refused(%s, %d)" % (bytes_lit(text), strip), unwind=max(len(text), 60) + 4,
-                             unwindset={"memcmp.0": 20}, stubs=[FROM_UTF8_STUB, ("alloc::fmt::format", "crate::verif_util::empty_format")], mem_gb=8, timeout_s=1500,
+                             unwindset={"memcmp.0": 20}, stubs=[FROM_UTF8_STUB], mem_gb=10, timeout_s=1800,
                              sub="C19 parse_patch refuses the file patch (wiring of strip -> check -> error)", params=dict(case=nm, strip=strip)))
     for nm, text, strip in ACCEPTED:
         inst.append(Instance("c19_accepted_%s" % nm, "parser", "t_accepted_safe(%s, %d)" % (bytes_lit(text), strip), unwind=max(len(text), 60) + 4,
                              unwindset={"memcmp.0": 20}, stubs=[FROM_UTF8_STUB], mem_gb=8, timeout_s=1500,
                              sub="C19 names made safe by stripping are still accepted", params=dict(case=nm, strip=strip)))
+    from . import _mir
     return {
         "instances": inst,
+        "mir_vcs": [{"name": "parse_patch: strip, then the unsafe-name check, then Err or push", "function": "parse_patch", "target": "lib",
+                     "run": lambda f, v, w: _mir.vc_parse_patch_refuses_unsafe(f, v, w)}],
         "level": "model_checking",
         "functions": ["FilePatch::strip", "FilePatch::unsafe_filename", "parse_patch (strip -> unsafe_filename -> Err)", "std::path::Path::components (real)"],
         "symbolic": "every byte of the file name over the alphabet {a, ., /} (all arrangements of separators, '.', '..', leading '/'), for Borrowed and Owned names; strip level from the matrix",
